@@ -41,7 +41,7 @@ Definition binZ (strict : bool) (o : binop) (k : kind) (a b : Z) : option Z :=
   | BOr => Some (wrap k (Z.lor a b))
   | BXor => Some (wrap k (Z.lxor a b))
   | Shl => if (b <? 0) || (width k <=? b) then None
-           else if strict && is_signed k && ((a <? 0) || negb (in_range k (a * 2 ^ b))) then None
+           else if strict && is_signed k && ((a <? 0) || (2 ^ width k <=? a * 2 ^ b)) then None    (* C++14: a >= 0 and a * 2^b representable in the unsigned type *)
            else Some (wrap k (a * 2 ^ b))
   | Shr => if (b <? 0) || (width k <=? b) then None else Some (wrap k (a / 2 ^ b))
   | _ => None
